@@ -166,6 +166,8 @@ def rule_table(ctx):
     vs = find_fn(BN, "visit_statement")
     if vs is None:
         return ctx.missing(R, "visit_statement")
+    import alpha
+    vs, _m = alpha.canon_fields(vs, [], [("stmt", "param", 0), ("problematic_templates", "param", 1), ("reports", "param", 2)])
     pushes = [n for n in method_calls(vs["body"], "push")]
     ctx.floor(R, "report-pushes", len(pushes), 1)
     params = [p for p, _ in [(i.get("pat", {}).get("name"), 0) for i in vs["sig"]["inputs"] if not i.get("self")]]
@@ -396,8 +398,14 @@ def rule_thresholds(ctx, primes):
     R = "C11.3"
     ctx.rule(R, "Num2Bits/Bits2Num(n) is not flagged iff n is a known constant < 254 and only under BN254; a LessThan input is range-checked iff 2^k-1 <= p/2 (decided for k in 0..300 per curve from the extracted primes)")
     # ---- nonstrict binary conversion
+    import alpha
+    FIELD_SPECS = [("component_name", "Call", "name"), ("args", "Call", "args"), ("component_meta", "Call", "meta"), ("var_meta", "Substitution", "meta"), ("value", "FieldElement", "value")]
     top = find_fn(NS, "find_nonstrict_binary_conversion")
     vs = find_fn(NS, "visit_statement")
+    if vs is not None:
+        vs, _m = alpha.canon_fields(vs, FIELD_SPECS, [("stmt", "param", 0), ("prime_size", "param", 1), ("reports", "param", 2)])
+    if top is not None:
+        top, _m = alpha.canon_fields(top, [], [("cfg", "param", 0)])
     if top is None or vs is None:
         ctx.missing(R, "nonstrict_binary_conversion functions")
     else:
@@ -463,6 +471,7 @@ def rule_thresholds(ctx, primes):
     fn = find_fn(LT, "find_unconstrained_less_than")
     if fn is None:
         return ctx.missing(R, "find_unconstrained_less_than")
+    fn, _m = alpha.canon_fields(fn, [("value", "FieldElement", "value")], [("cfg", "param", 0)])
     pushes = [p for p in method_calls(fn["body"], "push") if render(strip(p["recv"])) == "reports"]
     if len(pushes) != 1:
         return ctx.missing(R, "find_unconstrained_less_than/report-push", "expected one reports.push, found %d" % len(pushes))
@@ -539,6 +548,8 @@ def rule_thresholds(ctx, primes):
     ui = find_fn(LT, "update_inputs")
     if uc is None or ui is None:
         return ctx.missing(R, "update_components/update_inputs")
+    uc, _m = alpha.canon_fields(uc, [("component_name", "Call", "name"), ("args", "Call", "args")], [("components", "param", 1)])
+    ui, _m = alpha.canon_fields(ui, [], [])
     txt = render(uc["body"])
     for name in ("LessThan", "Num2Bits"):
         ins = [n for n in method_calls(uc["body"], "insert") if ("less_than" if name == "LessThan" else "num_2_bits") in render(n["args"][-1])]
@@ -559,7 +570,7 @@ def rule_thresholds(ctx, primes):
         for q in ps:
             cs = [fact_str(c) for c in conditions_to(ui["body"], q)]
             det = str(cs)
-            ok = any(s.replace(" ", "") == '!(signal_name!="in")' or s.replace(" ", "") == '(signal_name=="in")' for s in cs) and any(("Component::" + name) in s for s in cs)
+            ok = any(re.fullmatch(r'!\(\w+!="in"\)', s.replace(" ", "")) or re.fullmatch(r'\(\w+=="in"\)', s.replace(" ", "")) for s in cs) and any(("Component::" + name) in s for s in cs)
         ctx.check(R, "update_inputs/" + name, ok and len(ps) == 1, "input recorded under %s" % det)
 
 
